@@ -95,6 +95,9 @@ func (n *RealNode) Restart() {
 	n.boot()
 }
 
+// Crash: the replica process dies without closing anything; a new process starts on the same directory.
+func (n *RealNode) Crash() { n.boot() }
+
 func (n *RealNode) View() NodeView {
 	st, info := n.srv.Status()
 	v := NodeView{State: string(st), Mode: "CLOSED", Size: info.Size, Rebuilding: info.Rebuilding, Checkpoint: info.Checkpoint}
